@@ -22,13 +22,78 @@ from .loader import repo_root
 CATALOGUE = Path(__file__).resolve().parent / 'catalogue.json'
 
 
+SEEDED = Path(__file__).resolve().parent.parent / 'seeded'
+BENIGN = Path(__file__).resolve().parent.parent / 'benign'
+
+
 def load_catalogue():
-    return json.loads(CATALOGUE.read_text())['variants']
+    """One-edit variants of the catalogue plus the changes seeded by the
+    independent sub-agents (/verif/seeded/<id>/patch.diff)."""
+    out = list(json.loads(CATALOGUE.read_text())['variants'])
+    if SEEDED.is_dir():
+        for d in sorted(SEEDED.iterdir()):
+            m = d / 'meta.json'
+            if not m.exists() or not (d / 'patch.diff').exists():
+                continue
+            meta = json.loads(m.read_text())
+            out.append({'id': meta['id'],
+                        'property': meta['breaks_property'],
+                        'rule': '-', 'patch': str(d / 'patch.diff'),
+                        'suite': 'SURVIVES', 'expect': 'fire',
+                        'source': 'independent sub-agent',
+                        'what': meta.get('needs_to_manifest', '')})
+    if BENIGN.is_dir():
+        # behaviour-preserving refactorings written by independent
+        # sub-agents (suite 123 passed with each); every check must stay
+        # silent on every one of them
+        from .rules import RULES
+        allp = sorted(RULES)
+        for d in sorted(BENIGN.iterdir()):
+            if not (d / 'patch.diff').exists():
+                continue
+            out.append({'id': d.name, 'property': allp[0],
+                        'also': allp[1:], 'rule': '-',
+                        'patch': str(d / 'patch.diff'), 'suite': 'BENIGN',
+                        'expect': 'silent',
+                        'source': 'independent sub-agent (refactoring)',
+                        'what': 'behaviour-preserving refactoring'})
+    return out
+
+
+def overlay_from_patch(patch, root=None):
+    """Apply a unified diff to temporary copies of the files it touches
+    (never to the repository) and return {file: new source}, or None."""
+    import re
+    import shutil
+    import subprocess
+    import tempfile
+    root = Path(root) if root else repo_root()
+    text = Path(patch).read_text()
+    files = sorted(set(re.findall(r'^\+\+\+ b/(\S+)', text, re.M)))
+    base = '/dev/shm' if os.path.isdir('/dev/shm') else None
+    tmp = Path(tempfile.mkdtemp(prefix='vsa_patch_', dir=base))
+    try:
+        for f in files:
+            (tmp / f).parent.mkdir(parents=True, exist_ok=True)
+            try:
+                shutil.copy(root / f, tmp / f)
+            except OSError:
+                return None
+        r = subprocess.run(['patch', '-p1', '-s', '--no-backup-if-mismatch',
+                            '-i', str(Path(patch).resolve())],
+                           cwd=tmp, capture_output=True, text=True)
+        if r.returncode != 0:
+            return None
+        return {f: (tmp / f).read_text() for f in files}
+    finally:
+        shutil.rmtree(tmp, ignore_errors=True)
 
 
 def make_overlay(variant, root=None):
     """{file: new source} or None when the text no longer matches."""
     root = Path(root) if root else repo_root()
+    if variant.get('patch'):
+        return overlay_from_patch(variant['patch'], root)
     overlay = {}
     edits = variant.get('edits') or [{
         'file': variant['file'], 'old': variant['old'],
@@ -69,7 +134,15 @@ def run_catalogue(props, jobs=16, only=None):
     Returns (summary dict, details list)."""
     from .__main__ import run_check
     cat = [v for v in load_catalogue()
-           if v['property'] in props and (only is None or v['id'] in only)]
+           if (v['property'] in props or (
+               v['expect'] == 'silent' and set(v.get('also', [])) &
+               set(props))) and (only is None or v['id'] in only)]
+    # a twin is judged on the requested properties only
+    cat = [dict(v, property=([p for p in [v['property']] + list(
+        v.get('also', [])) if p in props] or [v['property']])[0],
+        also=[p for p in [v['property']] + list(v.get('also', []))
+              if p in props][1:]) if v['expect'] == 'silent' else v
+           for v in cat]
     base = {}
     allp = set(props)
     for v in cat:
